@@ -338,3 +338,66 @@ def check_findall(prop, tier):
         return res.finish(tier)
     finally:
         shutil.rmtree(work, ignore_errors=True)
+
+
+# --------------------------------------------------------------------------- X05: openKlattgrid returns what the file encodes
+
+def _ko_job(job):
+    import random
+    from . import klattfam as K
+    from . import checks_misc as CM
+    items, start, workdir = job
+    klattgrid = K.mods()[0]
+    out = []
+    for i, p in enumerate(items):
+        rng = random.Random(p["seed"])
+        txt = K.synth_klattgrid(p["nform"], CM.synth_points(rng, p["nform"], p["npts"], p["xmin"]), 2.5, trailing_newline=p["nl"], xmin=p["xmin"])
+        expected = K.synth_klattgrid.last_expected
+        fn = os.path.join(workdir, "ko-%d-%d.KlattGrid" % (os.getpid(), start + i))
+        with open(fn, "w", encoding="utf-8") as f:
+            f.write(txt)
+        st, kg = "ok", None
+        try:
+            kg = klattgrid.openKlattgrid(fn)
+        except Exception as ex:  # noqa
+            st = type(ex).__name__
+        finally:
+            os.remove(fn)
+        ev = K.open_event(kg, expected, start + i, st)
+        ev["shape"] = [p["nform"], p["npts"], p["nl"], p["xmin"]]
+        out.append(ev)
+    return out
+
+
+def check_klatt_open(prop, tier):
+    import random
+    res = common.Result(prop)
+    work = common.scratch()
+    n = {"quick": 400, "thorough": 8000}[tier]
+    try:
+        T.praatio()
+        rng = random.Random(common.SEED * 17 + 3)
+        items = [dict(seed=common.SEED * 100000 + i, nform=rng.choice([1, 2, 3, 5, 10, 12]), npts=rng.randint(0, 3), nl=rng.random() < 0.8,
+                      xmin=rng.choice([0, 0, 0.25, 0.125])) for i in range(n)]
+        import multiprocessing as mp
+        size = max(1, len(items) // (2 * common.NCPU) + 1)
+        chunks = [(items[i:i + size], i, work) for i in range(0, len(items), size)]
+        with mp.get_context("fork").Pool(common.NCPU) as pool:
+            events = [e for ch in pool.map(common.Guarded(_ko_job), chunks) for e in ch]
+        events = common.split_broken(res, prop, events)
+        for i, e in enumerate(events):
+            e["id"] = i
+            res.distinct.add(tuple(e.pop("shape")) + (e["st"],))
+        if events:
+            res.add_sample({k: (v if k != "pre" and k != "post" else v[:3]) for k, v in events[0].items()})
+        verdicts, nval, cmd = common.validate_traces("Trace_Klatt", events, work, chunk=300)
+        res.cmds.append(cmd)
+        res.traces += nval
+        res.evaluations += len(events)
+        res.judge(events, verdicts, common.load_findings(), lambda c: c.startswith(prop + "_") or c == "UNKNOWN_OP")
+        res.assumptions = ["synthetic KlattGrids in Praat's long layout only (the layout the reference file has); numbers as ranks of bit patterns"]
+        res.rule = ("synthetic KlattGrid files (1-12 formants, 0-3 points per tier, with/without final newline, xmin 0 / 0.125 / 0.25) opened by the real "
+                    "openKlattgrid; TLC compares the opened hierarchy, spans and points with the data the file was generated from")
+        return res.finish(tier)
+    finally:
+        shutil.rmtree(work, ignore_errors=True)
